@@ -707,6 +707,27 @@ func (w *IonWorld) writer(t CTask, sink *sim.Sink) ion.Writer {
 	}
 }
 
+// scribble modifies a decoded value in place: every map gets a key, every slice element is overwritten. The value belongs
+// to the caller of Decode, so nobody else may ever see this.
+func scribble(v interface{}) {
+	switch x := v.(type) {
+	case map[string]interface{}:
+		for _, e := range x {
+			scribble(e)
+		}
+		x["scribbled-by-its-owner"] = true
+	case []interface{}:
+		for i := range x {
+			scribble(x[i])
+			x[i] = "scribbled"
+		}
+	case []byte:
+		for i := range x {
+			x[i] = '#'
+		}
+	}
+}
+
 func reencode(v interface{}) string {
 	var buf bytes.Buffer
 	e := ion.NewEncoderOpts(ion.NewTextWriterOpts(&buf, ion.TextWriterQuietFinish), ion.EncodeSortMaps)
@@ -770,6 +791,7 @@ func RunCTask(w *IonWorld, t CTask, yield func(string)) (out string) {
 			}
 			sb.WriteString(reencode(v))
 			sb.WriteByte('\n')
+			scribble(v) // what a caller may do with a value it was handed: it owns it
 		}
 	case "unmarshal":
 		n := t.Count
@@ -867,7 +889,7 @@ func RunCTask(w *IonWorld, t CTask, yield func(string)) (out string) {
 				tok := tb.Find(op.Text)
 				ts := "nil"
 				if tok != nil {
-					ts = tokStr(tok)
+					ts = fmt.Sprintf("%s#%d", tokStr(tok), tok.LocalSID)
 				}
 				fmt.Fprintf(&sb, "%d %v %s", id, ok, ts)
 			case "byid":
@@ -889,10 +911,29 @@ func RunCTask(w *IonWorld, t CTask, yield func(string)) (out string) {
 				s, ok := lt.FindByID(op.N)
 				fmt.Fprintf(&sb, "%d %v %d %v max=%d byid=%q %v %s", id1, new1, id2, new2, lt.MaxID(), s, ok, lt.String())
 			case "lstfind":
-				lt := ion.NewLocalSymbolTable([]ion.SharedSymbolTable{tb, w.table(op.Table + 1)}, []string{op.Text, "zz"})
+				imps := []ion.SharedSymbolTable{tb, w.table(op.Table + 1)}
+				if op.N%2 == 1 {
+					imps[0], imps[1] = imps[1], imps[0] // the same shared table at another offset
+				}
+				lt := ion.NewLocalSymbolTable(imps, []string{op.Text, "zz"})
 				id, ok := lt.FindByName(op.Text)
 				s, ok2 := lt.FindByID(op.N)
 				fmt.Fprintf(&sb, "%d %v %q %v max=%d", id, ok, s, ok2, lt.MaxID())
+				// Find hands out a token; the caller keeps it across its next I/O call and uses it afterwards
+				var toks []*ion.SymbolToken
+				for _, name := range []string{op.Text, "a1", "b1", "dup", "d2", "zz"} {
+					toks = append(toks, lt.Find(name))
+				}
+				if yield != nil {
+					yield("lstfind.hold")
+				}
+				for _, tk := range toks {
+					if tk == nil {
+						sb.WriteString(" nil")
+					} else {
+						fmt.Fprintf(&sb, " %s#%d", tokStr(tk), tk.LocalSID)
+					}
+				}
 			case "exact":
 				x := cat.FindExact(op.Text, int(op.N))
 				if x == nil {
